@@ -160,6 +160,12 @@ impl Run {
             ));
         }
         let mut viol_samples = vec![];
+        // simplest (shortest key) first
+        unknown.sort_by_key(|(k, _)| (k.len(), k.clone()));
+        if !unknown.is_empty() {
+            let listing: Vec<String> = unknown.iter().map(|(k, vs)| format!("{}\t{}", vs.len(), k)).collect();
+            let _ = std::fs::write(format!("{dir}/all_keys.txt"), listing.join("\n"));
+        }
         for (i, (k, vs)) in unknown.iter().enumerate() {
             if i >= 20 {
                 break;
